@@ -1,0 +1,165 @@
+//! Verification hooks (cargo feature `verif`).
+//!
+//! With the feature off this module does not exist. With the feature on and no
+//! controller installed every hook is a no-op, so behaviour is unchanged.
+//!
+//! Re-exports give an external harness access to the internal pure functions,
+//! and the scheduling controller lets it decide which in-flight worker task
+//! runs (and therefore completes) next.
+use std::path::{Path, PathBuf};
+use std::sync::{Condvar, Mutex};
+
+pub use crate::core::execute_verif::{preprocess, Directive, DirectiveType, PpResult};
+pub use crate::core::execute_verif::{resolve_inputs, scan_dir};
+pub use crate::core::{DepManager, ReplaceLineEnding, TagState};
+pub use crate::fs::{AbsPath, Directory, GetLineEnding, IOCtx, Shell, TxtppPath};
+
+/// A worker task as seen by the controller
+#[derive(Debug, Clone)]
+pub struct Task {
+    pub id: usize,
+    /// 0 = directory scan, 1 = preprocess
+    pub kind: u8,
+    pub path: PathBuf,
+    pub first: bool,
+}
+
+#[derive(Default)]
+struct State {
+    next_id: usize,
+    pending: Vec<Task>,
+    granted: Option<usize>,
+    release_all: bool,
+    schedule: Vec<usize>,
+    pos: usize,
+    /// (task chosen, number of pending tasks at the time, chosen after run_internal returned)
+    trace: Vec<(Task, usize, bool)>,
+}
+
+static ST: Mutex<Option<State>> = Mutex::new(None);
+static CV: Condvar = Condvar::new();
+
+fn lock() -> std::sync::MutexGuard<'static, Option<State>> {
+    ST.lock().unwrap_or_else(|e| e.into_inner())
+}
+
+/// Install a controller with the given schedule (choices into the sorted pending list)
+pub fn install(schedule: Vec<usize>) {
+    *lock() = Some(State {
+        schedule,
+        ..Default::default()
+    });
+}
+
+/// Remove the controller and return the trace of choices it made
+pub fn uninstall() -> Vec<(Task, usize, bool)> {
+    let r = lock().take().map(|s| s.trace).unwrap_or_default();
+    CV.notify_all();
+    r
+}
+
+fn pick(s: &mut State, after: bool) -> Option<usize> {
+    if s.pending.is_empty() {
+        return None;
+    }
+    s.pending
+        .sort_by(|a, b| (a.kind, &a.path, !a.first, a.id).cmp(&(b.kind, &b.path, !b.first, b.id)));
+    let n = s.pending.len();
+    let c = s.schedule.get(s.pos).copied().unwrap_or(0) % n;
+    s.pos += 1;
+    let t = s.pending.remove(c);
+    let id = t.id;
+    s.trace.push((t, n, after));
+    s.granted = Some(id);
+    Some(id)
+}
+
+pub(crate) fn task_spawned(kind: u8, path: &Path, first: bool) -> usize {
+    let mut g = lock();
+    match g.as_mut() {
+        Some(s) => {
+            let id = s.next_id;
+            s.next_id += 1;
+            s.pending.push(Task {
+                id,
+                kind,
+                path: path.to_path_buf(),
+                first,
+            });
+            id
+        }
+        None => usize::MAX,
+    }
+}
+
+/// Held by a worker closure for its whole duration
+pub(crate) struct TaskGuard(usize);
+
+impl TaskGuard {
+    /// Blocks until the controller grants this task
+    pub(crate) fn begin(id: usize) -> Self {
+        if id != usize::MAX {
+            let mut g = lock();
+            loop {
+                match g.as_ref() {
+                    Some(s) if s.granted != Some(id) => {}
+                    _ => break,
+                }
+                g = CV.wait(g).unwrap_or_else(|e| e.into_inner());
+            }
+        }
+        TaskGuard(id)
+    }
+}
+
+impl Drop for TaskGuard {
+    fn drop(&mut self) {
+        if self.0 == usize::MAX {
+            return;
+        }
+        let mut g = lock();
+        if let Some(s) = g.as_mut() {
+            if s.granted == Some(self.0) {
+                s.granted = None;
+                if s.release_all {
+                    // after the coordinator returned: keep draining in schedule order
+                    pick(s, true);
+                }
+            }
+        }
+        CV.notify_all();
+    }
+}
+
+/// Called by the coordinator before each `try_recv`
+pub(crate) fn main_yield() {
+    let mut g = lock();
+    let id = match g.as_mut() {
+        Some(s) => match pick(s, false) {
+            Some(id) => id,
+            None => return,
+        },
+        None => return,
+    };
+    CV.notify_all();
+    loop {
+        match g.as_ref() {
+            Some(s) if s.granted == Some(id) => {}
+            _ => break,
+        }
+        g = CV.wait(g).unwrap_or_else(|e| e.into_inner());
+    }
+}
+
+/// Called when the coordinator loop has returned, before the pool is joined:
+/// the tasks still blocked are released one at a time in schedule order.
+pub(crate) fn run_finished() {
+    let mut g = lock();
+    if let Some(s) = g.as_mut() {
+        s.release_all = true;
+        if s.granted.is_none() {
+            pick(s, true);
+        }
+    }
+    CV.notify_all();
+}
